@@ -60,7 +60,9 @@ CheckDiscovery(e) ==
 
 \* C10: a delivered status is the protocol decoding of its datagram and does not change afterwards
 CheckEvent(e) ==
-  LET msg == e.b dec == DecodeFields(Event, msg) IN
+  LET msg == e.b
+      \* total: a delivered status whose datagram is not 64 bytes long (or is unknown to the harness: <<>>) has no decoding
+      dec == IF Len(msg) = 64 THEN DecodeFields(Event, msg) ELSE [t |-> "undecodable", len |-> Len(msg)] IN
   /\ Judge("C04", "NoPanic", e.status.t # "panic", e.status, "no panic")
   /\ Judge("C10", "EventDecoded", Len(msg) = 64 /\ (msg[1] = 23 \/ msg[1] = 25) /\ msg[2] = 32 /\ Field(msg, 4, 4) # <<0, 0, 0, 0>>
                                    /\ StatusOK("GetStatus", dec, e.status), e.status, dec)
